@@ -49,7 +49,7 @@ PInit ==
   /\ level \in Levels \cup (IF InMemory THEN {-1} ELSE {})
   /\ big \in Bigs
   /\ nops = 0 /\ hist = <<>> /\ last = "init"
-  /\ dur = EmptyKV /\ ck = EmptyKV /\ st = [clean |-> TRUE, saved |-> FALSE, commits |-> 0, gcs |-> 0]
+  /\ dur = EmptyKV /\ ck = EmptyKV /\ st = [clean |-> TRUE, saved |-> FALSE, mark |-> FALSE, commits |-> 0, gcs |-> 0]
 
 Plan == [uni |-> Uni, init |-> {<<k, init[k].v>> : k \in DOMAIN init}, level |-> level, req |-> req, big |-> big, ops |-> hist]
 Emit == PrintT(<<"VERIF_HIST", ToJson(Plan)>>)
